@@ -4,7 +4,7 @@
 // ---------------------------------------------------------------------------
 
 /// equal two's-complement readings <=> equal bit patterns
-pub proof fn lemma_sval_inj(w: nat, a: nat, b: nat)
+pub proof fn lemma_ib_sval_inj(w: nat, a: nat, b: nat)
     requires 1 <= w, a < p2(w), b < p2(w)
     ensures (sval(w, a) == sval(w, b)) == (a == b),
 {
@@ -14,7 +14,7 @@ pub proof fn lemma_sval_inj(w: nat, a: nat, b: nat)
 // ---------------- subpiece_higher ------------------------------------------------
 
 /// dropping `low` low bits is the arithmetic shift: s(u) = s(u >> low) * 2^low + (u mod 2^low)
-pub proof fn lemma_shr_sval(w: nat, low: nat, u: nat)
+pub proof fn lemma_ib_shr_sval(w: nat, low: nat, u: nat)
     requires 1 <= low < w, u < p2(w)
     ensures ({
         let t = (w - low) as nat;
@@ -54,48 +54,48 @@ pub proof fn lemma_shr_sval(w: nat, low: nat, u: nat)
 }
 
 /// the arithmetic shift is monotone
-pub proof fn lemma_shr_mono(w: nat, low: nat, a: nat, b: nat)
+pub proof fn lemma_ib_shr_mono(w: nat, low: nat, a: nat, b: nat)
     requires 1 <= low < w, a < p2(w), b < p2(w), sval(w, a) <= sval(w, b)
     ensures sval((w - low) as nat, a / p2(low)) <= sval((w - low) as nat, b / p2(low)),
 {
     let t = (w - low) as nat;
-    lemma_shr_sval(w, low, a); lemma_shr_sval(w, low, b);
+    lemma_ib_shr_sval(w, low, a); lemma_ib_shr_sval(w, low, b);
     lemma_p2(low);
     let (ha, hb) = (sval(t, a / p2(low)), sval(t, b / p2(low)));
     let pl = p2(low) as int;
     assert(ha <= hb) by (nonlinear_arith) requires ha * pl < (hb + 1) * pl, pl > 0;
 }
 
-pub open spec fn spec_subpiece_higher(i: Interval, low: nat) -> Interval {
+pub open spec fn ib_spec_subpiece_higher(i: Interval, low: nat) -> Interval {
     let t = (i.w() - low) as nat;
     let (s, e) = (pcode_subpiece(i.start, low, t), pcode_subpiece(i.end, low, t));
     Interval { start: s, end: e, stride: if s == e { 0u64 } else { 1u64 } }
 }
 
-pub proof fn lemma_interval_subpiece_higher(i: Interval, low: nat)
+pub proof fn lemma_ib_interval_subpiece_higher(i: Interval, low: nat)
     requires i.inv(), 1 <= low < i.w()
-    ensures spec_subpiece_higher(i, low).inv(),
-            spec_subpiece_higher(i, low).w() == i.w() - low,
-            forall|x: Bitvector| i.gamma(x) ==> #[trigger] spec_subpiece_higher(i, low).gamma(pcode_subpiece(x, low, (i.w() - low) as nat)),
+    ensures ib_spec_subpiece_higher(i, low).inv(),
+            ib_spec_subpiece_higher(i, low).w() == i.w() - low,
+            forall|x: Bitvector| i.gamma(x) ==> #[trigger] ib_spec_subpiece_higher(i, low).gamma(pcode_subpiece(x, low, (i.w() - low) as nat)),
 {
     let w = i.w();
     let t = (w - low) as nat;
-    let r = spec_subpiece_higher(i, low);
-    lemma_shr_sval(w, low, i.start.u@); lemma_shr_sval(w, low, i.end.u@);
-    lemma_shr_mono(w, low, i.start.u@, i.end.u@);
-    lemma_sval_inj(t, r.start.u@, r.end.u@);
+    let r = ib_spec_subpiece_higher(i, low);
+    lemma_ib_shr_sval(w, low, i.start.u@); lemma_ib_shr_sval(w, low, i.end.u@);
+    lemma_ib_shr_mono(w, low, i.start.u@, i.end.u@);
+    lemma_ib_sval_inj(t, r.start.u@, r.end.u@);
     assert(r.inv());
     assert forall|x: Bitvector| i.gamma(x) implies #[trigger] r.gamma(pcode_subpiece(x, low, t)) by {
-        lemma_shr_sval(w, low, x.u@);
-        lemma_shr_mono(w, low, i.start.u@, x.u@);
-        lemma_shr_mono(w, low, x.u@, i.end.u@);
+        lemma_ib_shr_sval(w, low, x.u@);
+        lemma_ib_shr_mono(w, low, i.start.u@, x.u@);
+        lemma_ib_shr_mono(w, low, x.u@, i.end.u@);
     }
 }
 
 // ---------------- subpiece_lower -------------------------------------------------
 
 /// keeping the low t bits keeps the value modulo 2^t (signed reading of the source)
-pub proof fn lemma_trunc_low(w: nat, t: nat, u: nat)
+pub proof fn lemma_ib_trunc_low(w: nat, t: nat, u: nat)
     requires 1 <= t <= w, u < p2(w)
     ensures trunc(t, sval(w, u)) == u % p2(t), u % p2(t) < p2(t),
             trunc(t, sval(t, u % p2(t))) == u % p2(t),
@@ -113,7 +113,7 @@ pub proof fn lemma_trunc_low(w: nat, t: nat, u: nat)
 }
 
 /// congruent modulo 2^t and closer than 2^t: equal
-pub proof fn lemma_trunc_eq_close(t: nat, x: int, y: int)
+pub proof fn lemma_ib_trunc_eq_close(t: nat, x: int, y: int)
     requires trunc(t, x) == trunc(t, y), -p2(t) < x - y < p2(t)
     ensures x == y,
 {
@@ -128,22 +128,22 @@ pub proof fn lemma_trunc_eq_close(t: nat, x: int, y: int)
 }
 
 /// trunc(t, a) == trunc(t, b)  ==>  trunc(t, a + k) == trunc(t, b + k)
-pub proof fn lemma_trunc_eq_add(t: nat, a: int, b: int, k: int)
+pub proof fn lemma_ib_trunc_eq_add(t: nat, a: int, b: int, k: int)
     requires trunc(t, a) == trunc(t, b)
     ensures trunc(t, a + k) == trunc(t, b + k),
 {
     lemma_trunc_add(t, a, k); lemma_trunc_add(t, b, k);
 }
 
-pub open spec fn spec_subpiece_lower(i: Interval, t: nat) -> Interval {
+pub open spec fn ib_spec_subpiece_lower(i: Interval, t: nat) -> Interval {
     Interval { start: bv(t, i.start.u@ % p2(t)), end: bv(t, i.end.u@ % p2(t)), stride: i.stride }
 }
 
-pub proof fn lemma_interval_subpiece_lower(i: Interval, t: nat)
+pub proof fn lemma_ib_interval_subpiece_lower(i: Interval, t: nat)
     requires i.inv(), 1 <= t < i.w()
     ensures ({
         let len = bv_sub(i.end, i.start);
-        let r = spec_subpiece_lower(i, t);
+        let r = ib_spec_subpiece_lower(i, t);
         &&& len.wf() && len.u@ == i.end.s() - i.start.s()
         &&& p2(t) < p2(i.w()) && p2(0) == 1
         &&& r.start.wf() && r.end.wf()
@@ -153,30 +153,30 @@ pub proof fn lemma_interval_subpiece_lower(i: Interval, t: nat)
 {
     let w = i.w();
     let len = bv_sub(i.end, i.start);
-    let r = spec_subpiece_lower(i, t);
+    let r = ib_spec_subpiece_lower(i, t);
     lemma_binop_facts(i.end, i.start);
     lemma_p2_consts();
     lemma_p2(t);
     vstd::arithmetic::power2::lemma_pow2_strictly_increases(t, w);
-    lemma_trunc_low(w, t, i.start.u@); lemma_trunc_low(w, t, i.end.u@);
+    lemma_ib_trunc_low(w, t, i.start.u@); lemma_ib_trunc_low(w, t, i.end.u@);
     let (a, e) = (i.start.s(), i.end.s());
     let l = e - a;
     let (sl, el) = (r.start.s(), r.end.s());
     lemma_sval(t, r.start.u@); lemma_sval(t, r.end.u@);
     if len.u@ <= p2(t) - 1 && sl <= el {
         // el == sl + l
-        lemma_trunc_eq_add(t, sl, a, l);
-        lemma_trunc_eq_close(t, el, sl + l);
+        lemma_ib_trunc_eq_add(t, sl, a, l);
+        lemma_ib_trunc_eq_close(t, el, sl + l);
         assert(r.inv());
         assert forall|x: Bitvector| i.gamma(x) implies #[trigger] r.gamma(pcode_subpiece(x, 0, t)) by {
             let xl = pcode_subpiece(x, 0, t);
             assert(x.u@ / 1 == x.u@);
             assert(xl == bv(t, x.u@ % p2(t)));
-            lemma_trunc_low(w, t, x.u@);
+            lemma_ib_trunc_low(w, t, x.u@);
             lemma_sval(t, xl.u@);
             let k = x.s() - a;
-            lemma_trunc_eq_add(t, sl, a, k);
-            lemma_trunc_eq_close(t, xl.s(), sl + k);
+            lemma_ib_trunc_eq_add(t, sl, a, k);
+            lemma_ib_trunc_eq_close(t, xl.s(), sl + k);
         }
     }
 }
@@ -184,18 +184,532 @@ pub proof fn lemma_interval_subpiece_lower(i: Interval, t: nat)
 // ---------------- subpiece ---------------------------------------------------------
 
 /// SUBPIECE(low, t) = low-t-bits of SUBPIECE(low, w - low); SUBPIECE(0, w) is the identity
-pub proof fn lemma_subpiece_compose(x: Bitvector, low: nat, t: nat)
+pub proof fn lemma_ib_subpiece_compose(x: Bitvector, low: nat, t: nat)
     requires x.wf(), 1 <= t, low + t <= x.w@
     ensures low >= 1 ==> pcode_subpiece(pcode_subpiece(x, low, (x.w@ - low) as nat), 0, t) == pcode_subpiece(x, low, t),
             low == 0 && t == x.w@ ==> pcode_subpiece(x, 0, t) == x,
 {
     lemma_p2_consts();
     if low >= 1 {
-        lemma_shr_sval(x.w@, low, x.u@);
+        lemma_ib_shr_sval(x.w@, low, x.u@);
         let q = x.u@ / p2(low);
         assert(q / 1 == q);
     } else if t == x.w@ {
         assert(x.u@ / 1 == x.u@);
         vstd::arithmetic::div_mod::lemma_small_mod(x.u@, p2(t));
+    }
+}
+
+// ---------------- adjust_to_stride_and_remainder -----------------------------------
+
+/// Rust's `%` on signed machine integers for a positive divisor (the sign follows the dividend)
+pub open spec fn ib_rust_rem(a: int, m: int) -> int { if a >= 0 { a % m } else { -((-a) % m) } }
+
+/// what the verifier needs to know about `a % m` and the idiom `((a % m) + m) % m` (= Euclidean a mod m)
+pub open spec fn ib_rem_facts(a: int, m: int) -> bool {
+    &&& -m < ib_rust_rem(a, m) < m && 0 <= a % m < m && 0 <= (-a) % m < m
+    &&& a == m * (a / m) + a % m
+    &&& (a >= 0 ==> 0 <= ib_rust_rem(a, m)) && (a < 0 ==> ib_rust_rem(a, m) <= 0)
+}
+pub open spec fn ib_idiom_facts(a: int, m: int) -> bool {
+    &&& ib_rem_facts(a, m) && ib_rem_facts(ib_rust_rem(a, m) + m, m)
+    &&& ib_rust_rem(ib_rust_rem(a, m) + m, m) == a % m
+}
+
+pub proof fn lemma_ib_rust_rem(a: int, m: int)
+    requires m > 0
+    ensures ib_idiom_facts(a, m),
+{
+    vstd::arithmetic::div_mod::lemma_fundamental_div_mod(a, m);
+    vstd::arithmetic::div_mod::lemma_mod_bound(a, m);
+    vstd::arithmetic::div_mod::lemma_mod_bound(-a, m);
+    let d = ib_rust_rem(a, m);
+    vstd::arithmetic::div_mod::lemma_fundamental_div_mod(d + m, m);
+    vstd::arithmetic::div_mod::lemma_mod_bound(d + m, m);
+    vstd::arithmetic::div_mod::lemma_mod_bound(-(d + m), m);
+    if a >= 0 {
+        vstd::arithmetic::div_mod::lemma_fundamental_div_mod_converse(d + m, m, 1, d);
+    } else {
+        let e = (-a) % m;
+        vstd::arithmetic::div_mod::lemma_fundamental_div_mod(-a, m);
+        let q = (-a) / m;
+        if e == 0 {
+            vstd::arithmetic::div_mod::lemma_fundamental_div_mod_converse(m, m, 1, 0);
+            assert(a == m * (-q)) by (nonlinear_arith) requires -a == m * q;
+            vstd::arithmetic::div_mod::lemma_fundamental_div_mod_converse(a, m, -q, 0);
+        } else {
+            vstd::arithmetic::div_mod::lemma_small_mod((m - e) as nat, m as nat);
+            assert(a == m * (-q - 1) + (m - e)) by (nonlinear_arith) requires -a == m * q + e;
+            vstd::arithmetic::div_mod::lemma_fundamental_div_mod_converse(a, m, -q - 1, m - e);
+        }
+    }
+}
+
+/// first / last member of the residue class `rem` (mod m) inside [s, e]
+pub open spec fn ib_adj_start(s: int, rem: int, m: int) -> int { s + (rem - s) % m }
+pub open spec fn ib_adj_end(e: int, rem: int, m: int) -> int { e - (e - rem) % m }
+
+pub proof fn lemma_ib_adjust_int(s: int, e: int, rem: int, m: int, v: int)
+    requires m > 0
+    ensures ({
+        let (s1, e1) = (ib_adj_start(s, rem, m), ib_adj_end(e, rem, m));
+        &&& s <= s1 < s + m && e - m < e1 <= e
+        &&& (s1 - rem) % m == 0 && (e1 - rem) % m == 0 && (e1 - s1) % m == 0
+        &&& (s <= v <= e && (v - rem) % m == 0) <==> (s1 <= v <= e1 && (v - s1) % m == 0)
+    }),
+{
+    let (s1, e1) = (ib_adj_start(s, rem, m), ib_adj_end(e, rem, m));
+    let (d1, d2) = ((rem - s) % m, (e - rem) % m);
+    let (q1, q2) = ((rem - s) / m, (e - rem) / m);
+    vstd::arithmetic::div_mod::lemma_fundamental_div_mod(rem - s, m);
+    vstd::arithmetic::div_mod::lemma_fundamental_div_mod(e - rem, m);
+    vstd::arithmetic::div_mod::lemma_mod_bound(rem - s, m);
+    vstd::arithmetic::div_mod::lemma_mod_bound(e - rem, m);
+    assert(s1 - rem == m * (-q1)) by (nonlinear_arith) requires rem - s == m * q1 + d1, s1 == s + d1;
+    assert(e1 - rem == m * q2) by (nonlinear_arith) requires e - rem == m * q2 + d2, e1 == e - d2;
+    assert(e1 - s1 == m * (q2 + q1)) by (nonlinear_arith) requires s1 - rem == m * (-q1), e1 - rem == m * q2;
+    lemma_divides_mul(m, -q1); lemma_divides_mul(m, q2); lemma_divides_mul(m, q2 + q1);
+    if s <= v <= e && (v - rem) % m == 0 {
+        lemma_divides_witness(m, v - rem);
+        let k = (v - rem) / m;
+        assert(v - s1 == m * (k + q1)) by (nonlinear_arith) requires v - rem == m * k, s1 - rem == m * (-q1);
+        lemma_divides_mul(m, k + q1);
+        assert(k + q1 >= 0) by (nonlinear_arith) requires m * (k + q1) > -m, m > 0;
+        assert(m * (k + q1) >= 0) by (nonlinear_arith) requires k + q1 >= 0, m > 0;
+        assert(e1 - v == m * (q2 - k)) by (nonlinear_arith) requires v - rem == m * k, e1 - rem == m * q2;
+        assert(q2 - k >= 0) by (nonlinear_arith) requires m * (q2 - k) > -m, m > 0;
+        assert(m * (q2 - k) >= 0) by (nonlinear_arith) requires q2 - k >= 0, m > 0;
+    }
+    if s1 <= v <= e1 && (v - s1) % m == 0 {
+        lemma_divides_witness(m, v - s1);
+        let j = (v - s1) / m;
+        assert(v - rem == m * (j - q1)) by (nonlinear_arith) requires v - s1 == m * j, s1 - rem == m * (-q1);
+        lemma_divides_mul(m, j - q1);
+    }
+}
+
+/// truncating a 64-bit two's-complement encoding to w <= 64 bits keeps every value of the w-bit signed range
+pub proof fn lemma_ib_from_i64_truncate(w: nat, x: int)
+    requires 1 <= w <= 64, smin(w) <= x <= smax(w)
+    ensures trunc(64, x) % p2(w) == trunc(w, x), trunc(w, x) < p2(w), sval(w, trunc(w, x)) == x,
+            -0x8000_0000_0000_0000 <= smin(w), smax(w) <= 0x7fff_ffff_ffff_ffff,
+{
+    lemma_p2_consts();
+    lemma_p2_mono((w - 1) as nat, 63);
+    lemma_p2_mono(w, 64);
+    lemma_trunc_range(64, x);
+    lemma_trunc_sval(w, x);
+    let q = x / (p2(64) as int);
+    let k = p2((64 - w) as nat) as int;
+    // trunc(64, x) = x - q * 2^64 = x + (-q * k) * 2^w
+    assert(trunc(64, x) as int == x + (-q * k) * p2(w)) by (nonlinear_arith)
+        requires x == q * p2(64) + trunc(64, x), p2(64) == p2(w) * k;
+    lemma_trunc_shift(w, x, -q * k);
+}
+
+/// the interval `adjust_to_stride_and_remainder` computes for widths <= 64 bit
+pub open spec fn ib_spec_adjust(i: Interval, m: u64, rem: u64) -> Interval {
+    let w = i.start.w@;
+    let (s1, e1) = (ib_adj_start(i.start.s(), rem as int, m as int), ib_adj_end(i.end.s(), rem as int, m as int));
+    Interval { start: bv(w, trunc(w, s1)), end: bv(w, trunc(w, e1)), stride: if s1 == e1 { 0u64 } else { m } }
+}
+
+pub proof fn lemma_ib_adjust(i: Interval, m: u64, rem: u64)
+    requires i.start.wf(), i.end.wf(), i.start.w@ == i.end.w@, byte_w(i.start.w@), i.start.w@ <= 64, m > 0
+    ensures ({
+        let w = i.start.w@;
+        let (s, e) = (i.start.s(), i.end.s());
+        let (s1, e1) = (ib_adj_start(s, rem as int, m as int), ib_adj_end(e, rem as int, m as int));
+        let r = ib_spec_adjust(i, m, rem);
+        &&& i.start.u@ < p2(128) && i.end.u@ < p2(128)
+        &&& -0x8000_0000_0000_0000 <= s <= 0x7fff_ffff_ffff_ffff && -0x8000_0000_0000_0000 <= e <= 0x7fff_ffff_ffff_ffff
+        &&& ib_idiom_facts(rem - s, m as int) && ib_idiom_facts(e - rem, m as int)
+        &&& s <= s1 < s + m && e - m < e1 <= e
+        &&& forall|v: Bitvector| #[trigger] in_class(i, m, rem, v) ==> s1 <= v.s() <= e1
+        &&& s1 <= e1 ==> {
+            &&& r.start == bv(w, trunc(64, s1) % p2(w)) && r.end == bv(w, trunc(64, e1) % p2(w))
+            &&& r.start.s() == s1 && r.end.s() == e1 && (r.start == r.end) == (s1 == e1)
+            &&& r.inv()
+            &&& forall|v: Bitvector| in_class(i, m, rem, v) == #[trigger] r.gamma(v)
+        }
+    }),
+{
+    let w = i.start.w@;
+    let (s, e) = (i.start.s(), i.end.s());
+    let (s1, e1) = (ib_adj_start(s, rem as int, m as int), ib_adj_end(e, rem as int, m as int));
+    let r = ib_spec_adjust(i, m, rem);
+    lemma_p2_consts();
+    lemma_p2_mono(w, 64);
+    lemma_sval(w, i.start.u@); lemma_sval(w, i.end.u@);
+    lemma_p2_mono((w - 1) as nat, 63);
+    lemma_ib_rust_rem(rem - s, m as int); lemma_ib_rust_rem(e - rem, m as int);
+    lemma_ib_adjust_int(s, e, rem as int, m as int, 0);
+    assert forall|v: Bitvector| #[trigger] in_class(i, m, rem, v) implies s1 <= v.s() <= e1 by {
+        lemma_ib_adjust_int(s, e, rem as int, m as int, v.s());
+    }
+    if s1 <= e1 {
+        lemma_ib_from_i64_truncate(w, s1); lemma_ib_from_i64_truncate(w, e1);
+        lemma_ib_sval_inj(w, r.start.u@, r.end.u@);
+        assert(r.inv());
+        assert forall|v: Bitvector| in_class(i, m, rem, v) == #[trigger] r.gamma(v) by {
+            lemma_ib_adjust_int(s, e, rem as int, m as int, v.s());
+        }
+    }
+}
+
+// ---------------- u64::trailing_zeros (vstd: u64_trailing_zeros + axiom_u64_trailing_zeros) -------
+
+/// k = trailing_zeros(x), x != 0:  k < 64, 2^k divides x, and `1 << k` is 2^k (as u64 and as i128)
+pub proof fn lemma_ib_tz(x: u64)
+    requires x != 0
+    ensures 0 <= vstd::std_specs::bits::u64_trailing_zeros(x) < 64,
+            (x as int) % (p2(vstd::std_specs::bits::u64_trailing_zeros(x) as nat) as int) == 0,
+            0 < p2(vstd::std_specs::bits::u64_trailing_zeros(x) as nat) <= x,
+            (1u64 << (vstd::std_specs::bits::u64_trailing_zeros(x) as u32)) == p2(vstd::std_specs::bits::u64_trailing_zeros(x) as nat),
+            (1i128 << (vstd::std_specs::bits::u64_trailing_zeros(x) as u32)) == p2(vstd::std_specs::bits::u64_trailing_zeros(x) as nat),
+            x % 2 == 1 ==> vstd::std_specs::bits::u64_trailing_zeros(x) == 0,
+{
+    vstd::std_specs::bits::axiom_u64_trailing_zeros(x);
+    let k = vstd::std_specs::bits::u64_trailing_zeros(x) as u64;
+    assert(x == (x >> k) << k) by (bit_vector) requires k < 64, x << sub(64, k) == 0;
+    let h = x >> k;
+    vstd::bits::lemma_u64_shr_is_div(x, k);
+    vstd::arithmetic::power2::lemma_pow2_pos(k as nat);
+    let p = p2(k as nat) as int;
+    vstd::arithmetic::div_mod::lemma_fundamental_div_mod(x as int, p);
+    vstd::arithmetic::div_mod::lemma_mod_bound(x as int, p);
+    assert(h as int == (x as int) / p);
+    assert(h * p <= x) by (nonlinear_arith) requires x as int == p * (h as int) + (x as int) % p, 0 <= (x as int) % p;
+    vstd::bits::lemma_u64_shl_is_mul(h, k);
+    assert(x == h * p);
+    assert(x as int == p * (h as int)) by (nonlinear_arith) requires x == h * p;
+    vstd::arithmetic::div_mod::lemma_fundamental_div_mod_converse(x as int, p, h as int, 0);
+    assert(h != 0) by (nonlinear_arith) requires x == h * p, x != 0;
+    assert(p <= x) by (nonlinear_arith) requires x == h * p, h >= 1, p > 0;
+    vstd::bits::lemma_u64_shl_is_mul(1, k);
+    if k >= 1 {
+        lemma_p2(k as nat);
+        let hp = p2((k - 1) as nat) as int;
+        assert(x as int == 2 * (hp * (h as int))) by (nonlinear_arith) requires x as int == p * (h as int), p == 2 * hp;
+    }
+    let k32 = k as u32;
+    assert((1u64 << k32) == (1u64 << k)) by (bit_vector) requires k < 64, k32 == k as u32;
+    assert((1i128 << k32) == ((1u64 << k) as i128)) by (bit_vector) requires k < 64, k32 == k as u32;
+}
+
+// ---------------- zero_extend ----------------------------------------------------------
+
+/// a positive multiple of d is at least d
+pub proof fn lemma_ib_divisor_le(d: int, x: int)
+    requires d > 0, x > 0, x % d == 0
+    ensures d <= x,
+{
+    lemma_divides_witness(d, x);
+    let q = x / d;
+    assert(q >= 1) by (nonlinear_arith) requires x == d * q, x > 0, d > 0;
+    assert(d * q >= d) by (nonlinear_arith) requires q >= 1, d > 0;
+}
+
+/// 2^k <= x < 2^w  ==>  k < w and 2^k divides 2^w
+pub proof fn lemma_ib_p2_divides(k: nat, w: nat, x: int)
+    requires p2(k) <= x < p2(w)
+    ensures k < w, divides(p2(k) as int, p2(w) as int), p2(k) > 0,
+{
+    lemma_p2(k);
+    if k >= w { lemma_p2_mono(w, k); }
+    lemma_p2_mono(k, w);
+    lemma_divides_mul(p2(k) as int, p2((w - k) as nat) as int);
+}
+
+/// zero extension, bounds of equal sign: the unsigned order is the signed order
+pub proof fn lemma_ib_zext_same_sign(i: Interval, ww: nat)
+    requires i.inv(), i.w() < ww <= MAXW(), i.start.sign() == i.end.sign()
+    ensures ({
+        let r = Interval { start: bv(ww, i.start.u@), end: bv(ww, i.end.u@), stride: i.stride };
+        r.inv() && forall|x: Bitvector| i.gamma(x) ==> #[trigger] r.gamma(bv(ww, x.u@))
+    }),
+{
+    let w = i.w();
+    let r = Interval { start: bv(ww, i.start.u@), end: bv(ww, i.end.u@), stride: i.stride };
+    lemma_p2_mono(w, (ww - 1) as nat);
+    lemma_p2(ww);
+    lemma_sval(w, i.start.u@); lemma_sval(w, i.end.u@);
+    lemma_sval(ww, i.start.u@); lemma_sval(ww, i.end.u@);
+    assert(r.inv());
+    assert forall|x: Bitvector| i.gamma(x) implies #[trigger] r.gamma(bv(ww, x.u@)) by {
+        lemma_sval(w, x.u@); lemma_sval(ww, x.u@);
+    }
+}
+
+/// [0, 2^w - 1] at width ww: what zero_extend starts from when the bounds have different signs
+pub open spec fn ib_zext_full(i: Interval, ww: nat, stride: u64) -> Interval {
+    Interval { start: bv(ww, 0), end: bv(ww, (p2(i.w()) - 1) as nat), stride: stride }
+}
+
+pub proof fn lemma_ib_zext_mixed(i: Interval, ww: nat)
+    requires i.inv(), i.w() < ww <= MAXW(), i.start.sign() != i.end.sign()
+    ensures ({
+        let k = vstd::std_specs::bits::u64_trailing_zeros(i.stride) as nat;
+        let m = p2(k) as u64;
+        let s = i.start.s();
+        let rem = (s % (m as int)) as u64;
+        let full = ib_zext_full(i, ww, m);
+        let full1 = ib_zext_full(i, ww, 1);
+        &&& i.stride != 0 && 0 <= k < 64 && 0 < p2(k) <= i.stride && m == p2(k)
+        &&& (i.stride % 2 == 1 ==> m == 1)
+        &&& (1i128 << (k as u32)) == p2(k)
+        &&& (i.start.u@ < p2(128) ==> i.w() <= 128)
+        &&& ib_idiom_facts(s, m as int) && 0 <= s % (m as int) < m
+        &&& full.start.wf() && full.end.wf() && full.start.s() == 0 && full.end.s() == p2(i.w()) - 1
+        &&& in_class(full, m, rem, bv(ww, i.start.u@))
+        &&& forall|x: Bitvector| i.gamma(x) ==> #[trigger] in_class(full, m, rem, bv(ww, x.u@))
+        &&& full1.inv() && forall|x: Bitvector| i.gamma(x) ==> #[trigger] full1.gamma(bv(ww, x.u@))
+    }),
+{
+    let w = i.w();
+    let k = vstd::std_specs::bits::u64_trailing_zeros(i.stride) as nat;
+    let (s, e) = (i.start.s(), i.end.s());
+    lemma_sval(w, i.start.u@); lemma_sval(w, i.end.u@);
+    assert(s < 0 <= e);
+    assert(i.stride != 0);
+    lemma_ib_tz(i.stride);
+    let m = p2(k) as u64;
+    lemma_p2_consts();
+    let mi = m as int;
+    let st = i.stride as int;
+    let rem = (s % mi) as u64;
+    let full = ib_zext_full(i, ww, m);
+    let full1 = ib_zext_full(i, ww, 1);
+    lemma_ib_rust_rem(s, mi);
+    // widths
+    lemma_p2_mono(w, (ww - 1) as nat);
+    lemma_p2(ww); lemma_p2(w);
+    lemma_sval(ww, 0); lemma_sval(ww, (p2(w) - 1) as nat);
+    if w > 128 { lemma_p2_mono(128, (w - 1) as nat); }
+    // 2^k | stride | (e - s) < 2^w
+    lemma_ib_divisor_le(st, e - s);
+    lemma_ib_p2_divides(k, w, st);
+    assert(full1.inv());
+    assert forall|x: Bitvector| i.gamma(x) implies #[trigger] in_class(full, m, rem, bv(ww, x.u@)) && full1.gamma(bv(ww, x.u@)) by {
+        lemma_sval(w, x.u@); lemma_sval(ww, x.u@);
+        let c: int = if x.s() < 0 { 1 } else { 0 };
+        assert(x.u@ - rem == (x.s() - s) + c * p2(w) + (s - s % mi));
+        lemma_divides_trans(mi, st, x.s() - s);
+        lemma_divides_witness(mi, p2(w) as int);
+        let q = (p2(w) as int) / mi;
+        assert(c * p2(w) == mi * (c * q)) by (nonlinear_arith) requires p2(w) == mi * q;
+        lemma_divides_mul(mi, c * q);
+        lemma_divides_mul(mi, s / mi);
+        lemma_divides_add(mi, x.s() - s, c * p2(w));
+        lemma_divides_add(mi, (x.s() - s) + c * p2(w), s - s % mi);
+    }
+    assert(i.gamma(i.start));
+}
+
+// ---------------- piece ----------------------------------------------------------------
+
+/// P-Code PIECE: x supplies the most significant bits
+pub open spec fn ib_concat(x: Bitvector, y: Bitvector) -> Bitvector {
+    bv(x.w@ + y.w@, x.u@ * p2(y.w@) + y.u@)
+}
+
+/// signed reading of a concatenation: s(x ++ y) = s(x) * 2^wb + u(y)
+pub proof fn lemma_ib_concat_sval(x: Bitvector, y: Bitvector)
+    requires x.wf(), y.wf(), x.w@ + y.w@ <= MAXW()
+    ensures ib_concat(x, y).wf(), ib_concat(x, y).s() == x.s() * p2(y.w@) + y.u@,
+{
+    let (wa, wb) = (x.w@, y.w@);
+    let pb = p2(wb) as int;
+    let pa = p2(wa) as int;
+    let ha = p2((wa - 1) as nat) as int;
+    let (xu, yu) = (x.u@ as int, y.u@ as int);
+    let u = xu * pb + yu;
+    lemma_piece(x, y);
+    lemma_p2(wa); lemma_p2(wb);
+    lemma_p2_mono(wb, wa + wb);                       // p2(wa+wb) == p2(wb) * p2(wa)
+    lemma_p2_mono(wb, (wa + wb - 1) as nat);          // p2(wa+wb-1) == p2(wb) * p2(wa-1)
+    assert((wa + wb - wb) as nat == wa && (wa + wb - 1 - wb) as nat == (wa - 1) as nat);
+    assert((u >= pb * ha) == (xu >= ha)) by (nonlinear_arith) requires u == xu * pb + yu, 0 <= yu < pb, pb > 0;
+    lemma_sval(wa, x.u@); lemma_sval(wa + wb, u as nat);
+    if xu >= ha {
+        assert(u - pb * pa == (xu - pa) * pb + yu) by (nonlinear_arith) requires u == xu * pb + yu;
+    }
+}
+
+/// x strictly above a  ==>  x ++ anything is strictly above a ++ anything
+pub proof fn lemma_ib_concat_order(xs: int, yu: int, a: int, bu: int, p: int)
+    requires 0 <= yu < p, 0 <= bu < p, xs > a
+    ensures xs * p + yu > a * p + bu,
+{
+    assert(xs * p >= a * p + p) by (nonlinear_arith) requires xs >= a + 1, p > 0;
+}
+
+/// `other` has bounds of different sign: piece starts from [start ++ 0..0, end ++ 1..1], stride 1
+pub open spec fn ib_piece_full(a: Interval, b: Interval) -> Interval {
+    Interval { start: ib_concat(a.start, bv(b.w(), 0)), end: ib_concat(a.end, bv(b.w(), (p2(b.w()) - 1) as nat)), stride: 1 }
+}
+
+pub proof fn lemma_ib_piece_mixed(a: Interval, b: Interval)
+    requires a.inv(), b.inv(), a.w() + b.w() <= MAXW(), b.start.sign() && !b.end.sign()
+    ensures ({
+        let wb = b.w();
+        let k = vstd::std_specs::bits::u64_trailing_zeros(b.stride) as nat;
+        let m = p2(k) as u64;
+        let rem = (b.start.s() % (m as int)) as u64;
+        let full = ib_piece_full(a, b);
+        &&& bv(wb, 0).wf() && bv(wb, 1).wf() && bv_neg(bv(wb, 1)) == bv(wb, (p2(wb) - 1) as nat) && bv_neg(bv(wb, 1)).wf()
+        &&& full.start.wf() && full.end.wf() && full.inv() && full.w() == a.w() + wb
+        &&& forall|x: Bitvector, y: Bitvector| #![trigger a.gamma(x), b.gamma(y)] a.gamma(x) && b.gamma(y) ==> full.gamma(ib_concat(x, y))
+        &&& b.stride != 0 && 0 <= k < 64 && 0 < p2(k) <= b.stride && m == p2(k) && (1u64 << (k as u32)) == p2(k)
+        &&& (wb <= 128 ==> b.start.u@ < p2(128))
+        &&& ib_idiom_facts(b.start.s(), m as int) && 0 <= b.start.s() % (m as int) < m
+        &&& in_class(full, m, rem, ib_concat(a.start, b.start))
+        &&& forall|x: Bitvector, y: Bitvector| #![trigger a.gamma(x), b.gamma(y)] a.gamma(x) && b.gamma(y) ==> in_class(full, m, rem, ib_concat(x, y))
+    }),
+{
+    let (wa, wb) = (a.w(), b.w());
+    let k = vstd::std_specs::bits::u64_trailing_zeros(b.stride) as nat;
+    let pb = p2(wb) as int;
+    let full = ib_piece_full(a, b);
+    let zero = bv(wb, 0);
+    let ones = bv(wb, (p2(wb) - 1) as nat);
+    lemma_p2(wb);
+    lemma_minus_one(wb);
+    lemma_trunc_neg_case(wb, 1);
+    lemma_sval(wb, b.start.u@); lemma_sval(wb, b.end.u@);
+    let (bs, be) = (b.start.s(), b.end.s());
+    assert(bs < 0 <= be);
+    lemma_ib_tz(b.stride);
+    let m = p2(k) as u64;
+    let mi = m as int;
+    let st = b.stride as int;
+    let rem = (bs % mi) as u64;
+    lemma_ib_rust_rem(bs, mi);
+    if wb <= 128 { lemma_p2_mono(wb, 128); }
+    // 2^k | stride | (be - bs) < 2^wb
+    lemma_ib_divisor_le(st, be - bs);
+    lemma_ib_p2_divides(k, wb, st);
+    lemma_divides_witness(mi, pb);
+    let qp = pb / mi;
+    // bounds of the full interval
+    lemma_ib_concat_sval(a.start, zero); lemma_ib_concat_sval(a.end, ones);
+    let (fs, fe) = (full.start.s(), full.end.s());
+    assert(fs == a.start.s() * pb && fe == a.end.s() * pb + pb - 1);
+    assert(a.start.s() * pb <= a.end.s() * pb) by (nonlinear_arith) requires a.start.s() <= a.end.s(), pb > 0;
+    assert(pb >= 2);
+    assert(full.inv());
+    assert forall|x: Bitvector, y: Bitvector| #![trigger a.gamma(x), b.gamma(y)] a.gamma(x) && b.gamma(y)
+        implies full.gamma(ib_concat(x, y)) && in_class(full, m, rem, ib_concat(x, y)) by
+    {
+        lemma_ib_concat_sval(x, y);
+        let v = ib_concat(x, y);
+        let xs = x.s();
+        assert(a.start.s() * pb <= xs * pb) by (nonlinear_arith) requires a.start.s() <= xs, pb > 0;
+        assert(xs * pb <= a.end.s() * pb) by (nonlinear_arith) requires xs <= a.end.s(), pb > 0;
+        // residue class
+        lemma_sval(wb, y.u@);
+        let c: int = if y.s() < 0 { 1 } else { 0 };
+        assert(y.u@ == y.s() + c * pb);
+        assert(v.s() - rem == (xs + c) * pb + (y.s() - bs) + (bs - bs % mi)) by (nonlinear_arith)
+            requires v.s() == xs * pb + y.u@, y.u@ == y.s() + c * pb, rem as int == bs % mi;
+        assert((xs + c) * pb == mi * ((xs + c) * qp)) by (nonlinear_arith) requires pb == mi * qp;
+        lemma_divides_mul(mi, (xs + c) * qp);
+        lemma_divides_trans(mi, st, y.s() - bs);
+        lemma_divides_mul(mi, bs / mi);
+        lemma_divides_add(mi, (xs + c) * pb, y.s() - bs);
+        lemma_divides_add(mi, (xs + c) * pb + (y.s() - bs), bs - bs % mi);
+    }
+    assert(a.gamma(a.start) && b.gamma(b.start));
+}
+
+/// the stride `piece` computes when the bounds of `other` have the same sign
+pub open spec fn ib_piece_stride(a: Interval, b: Interval) -> u64 {
+    if a.stride == 0 { b.stride }
+    else if b.stride == 0 { (a.stride * p2(b.w())) as u64 }
+    else { p2(vstd::std_specs::bits::u64_trailing_zeros(b.stride) as nat) as u64 }
+}
+pub open spec fn ib_piece_same(a: Interval, b: Interval) -> Interval {
+    Interval { start: ib_concat(a.start, b.start), end: ib_concat(a.end, b.end), stride: ib_piece_stride(a, b) }
+}
+
+pub proof fn lemma_ib_piece_same(a: Interval, b: Interval)
+    requires a.inv(), b.inv(), a.w() + b.w() <= MAXW(), !(b.start.sign() && !b.end.sign()),
+             (a.stride != 0 && b.stride == 0) ==> a.stride * p2(b.w()) <= u64::MAX,
+    ensures ({
+        let wb = b.w();
+        let k = vstd::std_specs::bits::u64_trailing_zeros(b.stride) as nat;
+        let r = ib_piece_same(a, b);
+        &&& r.start.wf() && r.end.wf() && r.inv() && r.w() == a.w() + wb
+        &&& forall|x: Bitvector, y: Bitvector| #![trigger a.gamma(x), b.gamma(y)] a.gamma(x) && b.gamma(y) ==> r.gamma(ib_concat(x, y))
+        &&& (b.stride != 0 ==> 0 <= k < 64 && (1u64 << (k as u32)) == p2(k))
+        &&& (a.stride != 0 && b.stride == 0 ==> wb < 64 && (a.stride << (wb as u64)) == a.stride * p2(wb))
+    }),
+{
+    let (wa, wb) = (a.w(), b.w());
+    let pb = p2(wb) as int;
+    let r = ib_piece_same(a, b);
+    lemma_p2(wb);
+    lemma_p2_consts();
+    lemma_sval(wb, b.start.u@); lemma_sval(wb, b.end.u@);
+    lemma_sval(wa, a.start.u@); lemma_sval(wa, a.end.u@);
+    let (as_, ae) = (a.start.s(), a.end.s());
+    let (bsu, beu) = (b.start.u@ as int, b.end.u@ as int);
+    // same sign: unsigned distance == signed distance
+    assert(beu - bsu == b.end.s() - b.start.s());
+    lemma_ib_concat_sval(a.start, b.start); lemma_ib_concat_sval(a.end, b.end);
+    let (rs, re) = (r.start.s(), r.end.s());
+    assert(re - rs == (ae - as_) * pb + (beu - bsu)) by (nonlinear_arith)
+        requires rs == as_ * pb + bsu, re == ae * pb + beu;
+    if ae > as_ { lemma_ib_concat_order(ae, beu, as_, bsu, pb); }
+    let sa = a.stride as int;
+    let sb = b.stride as int;
+    let sr = r.stride as int;
+    // the stride divides 2^wb * (multiples of a.stride) and multiples of b.stride
+    if a.stride == 0 {
+    } else if b.stride == 0 {
+        if wb >= 64 {
+            lemma_p2_mono(64, wb);
+            assert(sa * pb >= pb) by (nonlinear_arith) requires sa >= 1, pb > 0;
+        }
+        vstd::bits::lemma_u64_shl_is_mul(a.stride, wb as u64);
+        assert(sr == sa * pb);
+        assert(sr > 0) by (nonlinear_arith) requires sr == sa * pb, sa > 0, pb > 0;
+    } else {
+        lemma_ib_tz(b.stride);
+        lemma_ib_divisor_le(sb, beu - bsu);
+        lemma_ib_p2_divides(vstd::std_specs::bits::u64_trailing_zeros(b.stride) as nat, wb, sb);
+    }
+    assert forall|ds: int, du: int| (on_stride(a.stride, ds) && on_stride(b.stride, du)) implies #[trigger] on_stride(r.stride, ds * pb + du) by {
+        if a.stride == 0 {
+            assert(ds * pb == 0) by (nonlinear_arith) requires ds == 0;
+        } else if b.stride == 0 {
+            lemma_divides_witness(sa, ds);
+            let j = ds / sa;
+            assert(ds * pb == (sa * pb) * j) by (nonlinear_arith) requires ds == sa * j;
+            lemma_divides_mul(sr, j);
+        } else {
+            lemma_divides_witness(sr, pb);
+            let qp = pb / sr;
+            assert(ds * pb == sr * (ds * qp)) by (nonlinear_arith) requires pb == sr * qp;
+            lemma_divides_mul(sr, ds * qp);
+            lemma_divides_trans(sr, sb, du);
+            lemma_divides_add(sr, ds * pb, du);
+        }
+    }
+    assert(on_stride(r.stride, (ae - as_) * pb + (beu - bsu)));
+    assert(r.inv());
+    assert forall|x: Bitvector, y: Bitvector| #![trigger a.gamma(x), b.gamma(y)] a.gamma(x) && b.gamma(y)
+        implies r.gamma(ib_concat(x, y)) by
+    {
+        lemma_ib_concat_sval(x, y);
+        lemma_sval(wb, y.u@); lemma_sval(wa, x.u@);
+        let (xs, yu) = (x.s(), y.u@ as int);
+        let v = ib_concat(x, y);
+        assert(yu - bsu == y.s() - b.start.s());
+        assert(v.s() - rs == (xs - as_) * pb + (yu - bsu)) by (nonlinear_arith)
+            requires v.s() == xs * pb + yu, rs == as_ * pb + bsu;
+        if xs > as_ { lemma_ib_concat_order(xs, yu, as_, bsu, pb); }
+        if ae > xs { lemma_ib_concat_order(ae, beu, xs, yu, pb); }
+        assert(on_stride(r.stride, (xs - as_) * pb + (yu - bsu)));
     }
 }
